@@ -78,7 +78,9 @@ Contexts == {<<"direct", "top", "none", "">>} \cup {<<"direct", y, "none", "">> 
                 \cup {<<"elem", "elif_then", "none", "">>, <<"member", "elif2", "none", "">>, <<"nested", "elif_else", "none", "">>}
                 \cup {<<x, "top", "none", "">> : x \in SibContexts} \cup {<<"sib_idx", "elif_then", "none", "">>, <<"sib_member", "block", "none", "">>}
                 \cup {<<"direct", "top", p, "">> : p \in Pres}
-                \cup {<<"direct", "top", "none", f>> : f \in {"pub", "extern"}}
+                \* (v = "ixptr", ninth round of seeded changes: the SUBSCRIPT reads through a reference pointer, `b[pi]` with `pi: &usize`;
+                \* what the index expression is made of is no part of the rule)
+                \cup {<<"direct", "top", "none", f>> : f \in {"pub", "extern", "ixptr"}}
                 \cup {<<"direct", "loop", "s_bad", "">>, <<"direct", "label", "f_bad", "pub">>}
 
 MkCell(b, p, k, ctx, q) == [kind |-> b[1], d |-> b[2], path |-> p, k |-> k, ctx |-> ctx, x |-> q[1], y |-> q[2], pre |-> q[3], v |-> q[4]]
@@ -102,6 +104,7 @@ ContextOK(cl) ==
        /\ (cl.x \in {"reseat", "twice_r", "twice_l"} =>
                et \in {Ptr(I32), Ptr(Ptr(I32)), Ptr(St("S")), Ptr(Ptr(St("S"))), Ptr(St("SP")), Ptr(St("SS")), Ptr(A2(I32)), Ptr(Wd)})
        \* extern signatures: pointers and primitive types only (features.md "Interoperability with C")
+       /\ (cl.v = "ixptr" => \E j \in 1..Len(cl.path) : cl.path[j] = "i")
        /\ (cl.v # "" => /\ cl.kind = "param" /\ Len(cl.path) <= 1
                         /\ (cl.v = "extern" => cl.d \in {I32, Ptr(I32), Ptr(Ptr(I32))}))
        /\ (cl.x \in SibContexts => /\ cl.ctx = "read" /\ cl.k = 0 /\ Len(cl.path) <= 2
